@@ -20,7 +20,7 @@ import pipegen
 import terms
 
 PID = "C11"
-PROPS = ["PfModel.Props.C11"]
+PROPS = ["PfModel.Props.C11", "PfModel.Props.C11Ext"]
 DRIVER = "C11"
 RULE = ("call DAGs of 1-6 term-building functions (pipegen; nullary p=0.2, functions whose parameters are all defaulted/bound, tuple "
         "outputs, renames, bound values) and well-formed map pipelines of 1-4 functions (mapgen); for every pipeline every non-empty "
@@ -34,7 +34,11 @@ ASSUMPTIONS = ["networkx graph construction and traversal are mirrored by the mo
                "provided intermediates of map pipelines are the arrays the full run produced (their equality with the model is C01)",
                "error messages are only searched for the names of the missing root arguments",
                "a request that provides one output of a tuple-output function that is still needed, provides a requested output, or "
-               "provides unused names is outside the property's quantifier: only accept/reject is compared with the model"]
+               "provides unused (known) names: `subpipeline` must keep exactly the needed functions and `run(o, kwargs)` must return the "
+               "composition with the provided names substituted; `map` may either reject it (ValueError naming the offending name, before any "
+               "user function ran - it is an ill-formed input of the selected partial pipeline) or return the substituted values with exactly "
+               "the needed calls; accept/reject is compared with the model",
+               "interpreted constant functions (VERIF_CONST policy `all`): the model never inspects values, so its answers are compared through terms.canon"]
 
 
 # ------------------------------------------------------------------------------------------ reference semantics (Python)
@@ -108,7 +112,7 @@ def ref_value(funcs, kw, o, log):
         t = app(f)
         return t if len(f["outputs"]) == 1 else {"pick": [t, q]}
 
-    return val(o)
+    return terms.canon(val(o))      # interpreted constant functions (terms.CONST_SUFFIX): the homomorphic image of the free term
 
 
 # ------------------------------------------------------------------------------------------ generators
@@ -169,6 +173,13 @@ def cuts_for(rng, funcs, S):
         gone = rng.choice(req)
         out.append(("drop-root", [r for r in roots if r != gone]))
     # malformed stream
+    tup = [(f, o) for f in nf if len(f["outputs"]) > 1 for o in f["outputs"] if o not in S
+           and any(o == q for g in nf for q, _ in g["params"] if q not in _bound(g))]
+    if tup and rng.random() < 0.5:
+        f, o = rng.choice(tup)
+        r3 = ref_needed(funcs, S, {o})
+        if f["name"] in r3["needed"]:
+            out.append(("bad:tuple-part", [o] + [r for r in r3["roots"] if r != o]))
     r = rng.random()
     if r < 0.15:
         pool = [n for n in ["r0", "r1", "r2"] + sorted(prod) if n not in roots and n not in S]
@@ -213,6 +224,113 @@ def obs_map(p, log, inputs, S, auto, internal=None):
                 "called": sorted(set(log.names()))}
     except Exception as e:  # noqa: BLE001
         return {"err": exc_enum(e), "msg": "reading results: " + str(e), "calls": []}
+
+
+def _map_obs(fn, log, inputs, **kw):
+    log.clear()
+    try:
+        res = pipegen.quiet(fn, dict(inputs), **kw)
+    except Exception as e:  # noqa: BLE001
+        return {"err": exc_enum(e), "msg": str(e), "calls": sorted(set(log.names()))}
+    try:
+        return {"outputs": {k: terms.enc(r.output) for k, r in res.items()},
+                "calls": sorted(([c[0], c[1]] for c in log.read() if c[2] == "call"), key=repr),
+                "called": sorted(set(log.names()))}
+    except Exception as e:  # noqa: BLE001
+        return {"err": exc_enum(e), "msg": "reading results: " + str(e), "calls": []}
+
+
+def obs_variants(ctx, p, log, inputs, S, I, rng, internal=None, run_kw=None):
+    """Item 4: other ways to the same partial run.  `subobj`: Pipeline.subpipeline(I, S) as an object, then `.map(inputs)` and
+    `.run(o, kwargs)`; `par`: map(output_names=S, parallel=True) on a thread pool; `resume`: map(output_names=S, run_folder=d)
+    twice, the second time with cleanup=False."""
+    out = {}
+    ikw = {"internal_shapes": internal} if internal else {}
+    r = rng.random()
+    if r < 0.3:
+        try:
+            sub = pipegen.quiet(p.subpipeline, set(I), set(S))
+        except Exception as e:  # noqa: BLE001
+            out["subobj"] = {"err": exc_enum(e), "msg": str(e)}
+        else:
+            ob = {"map": _map_obs(sub.map, log, inputs, parallel=False, storage="dict", **ikw)}
+            if run_kw is not None and len(S) == 1:
+                log.clear()
+                try:
+                    v = pipegen.quiet(sub.run, S[0], kwargs={k: terms.dec(x) for k, x in run_kw.items()})
+                    ob["run"] = {"value": terms.enc(v), "calls": sorted(log.names())}
+                except Exception as e:  # noqa: BLE001
+                    ob["run"] = {"err": exc_enum(e), "msg": str(e), "calls": sorted(log.names())}
+            out["subobj"] = ob
+    elif r < 0.45:
+        from concurrent.futures import ThreadPoolExecutor
+        with ThreadPoolExecutor(max_workers=2) as ex:
+            out["par"] = _map_obs(p.map, log, inputs, output_names=set(S), parallel=True, executor=ex, storage="dict", **ikw)
+    elif r < 0.58 and ctx_tmp(ctx):
+        import os
+        ctx._c11_n = getattr(ctx, "_c11_n", 0) + 1
+        d = os.path.join(ctx_tmp(ctx), f"run{ctx._c11_n}")
+        first = _map_obs(p.map, log, inputs, output_names=set(S), parallel=False, run_folder=d, **ikw)
+        second = _map_obs(p.map, log, inputs, output_names=set(S), parallel=False, run_folder=d, cleanup=False, **ikw)
+        out["resume"] = {"first": first, "second": second}
+    return out
+
+
+def ctx_tmp(ctx):
+    return getattr(ctx, "_c11_tmp", None)
+
+
+def judge_variants(ctx, case, impl, want, needed, ncalls_ok):
+    """`want`: {o: value} the property demands for o in S; `needed`: sorted names; `ncalls_ok(calls)`: the expected call list test."""
+    v = impl.get("variants") or {}
+    for key, what in (("subobj", "subpipeline(I, S).map(inputs)"), ("par", "map(output_names=S, parallel=True)")):
+        if key not in v:
+            continue
+        ctx.count(f"variant:{key}")
+        ob = v[key] if key == "par" else v[key].get("map", v[key])
+        if "err" in ob:
+            ctx.violation(case, f"{what} refuses a computable request: {ob.get('msg', '')[:140]}", impl=ob, model=want)
+            return False
+        for o, w in want.items():
+            if ob["outputs"].get(o) != w:
+                ctx.violation(case, f"{what}: value of `{o}` is not the full pipeline's value with the provided names substituted",
+                              impl={"value": ob["outputs"].get(o)}, model={"value": w})
+                return False
+        if ob["called"] != needed or not ncalls_ok(ob["calls"]):
+            ctx.violation(case, f"{what} invoked {ob['called']} ({len(ob['calls'])} calls) instead of exactly the needed {needed}", impl=ob, model=needed)
+            return False
+    if "subobj" in v and "run" in v["subobj"]:
+        ob = v["subobj"]["run"]
+        o = case["S"][0]
+        ctx.count("variant:subobj-run")
+        if "err" in ob:
+            ctx.violation(case, f"subpipeline(I, S).run(o, kwargs=I) refuses a computable request: {ob['msg'][:140]}", impl=ob, model=want)
+            return False
+        if ob["value"] != want[o]:
+            ctx.violation(case, "subpipeline(I, S).run(o, kwargs=I): value is not the composition with the provided names substituted", impl=ob, model={"value": want[o]})
+            return False
+        if ob["calls"] != needed:
+            ctx.violation(case, f"subpipeline(I, S).run(o, kwargs=I) invoked {ob['calls']} instead of exactly the needed {needed}", impl=ob, model=needed)
+            return False
+    if "resume" in v:
+        ctx.count("variant:resume")
+        a, b = v["resume"]["first"], v["resume"]["second"]
+        for ob, what in ((a, "map(output_names=S, run_folder=d)"), (b, "map(output_names=S, run_folder=d, cleanup=False) after a complete run")):
+            if "err" in ob:
+                ctx.violation(case, f"{what} refuses a computable request: {ob.get('msg', '')[:140]}", impl=ob, model=want)
+                return False
+            for o, w in want.items():
+                if ob["outputs"].get(o) != w:
+                    ctx.violation(case, f"{what}: value of `{o}` is not the full pipeline's value with the provided names substituted",
+                                  impl={"value": ob["outputs"].get(o)}, model={"value": w})
+                    return False
+            if [n for n in ob["called"] if n not in needed]:
+                ctx.violation(case, f"{what} invoked {ob['called']}, not only needed functions {needed}", impl=ob, model=needed)
+                return False
+        if a["called"] != needed or not ncalls_ok(a["calls"]):
+            ctx.violation(case, f"map(output_names=S, run_folder=d) invoked {a['called']} instead of exactly the needed {needed}", impl=a, model=needed)
+            return False
+    return True
 
 
 def obs_run(p, log, o, kw):
@@ -272,6 +390,10 @@ def pipe_requests(ctx, desc, rng, items):
             if len(S) == 1 and not kind.startswith("bad") and kind != "drop-root":
                 impl["run"] = obs_run(p, log, S[0], {k: kwval(k) for k in I})
                 reqs.append({"m": "pipe.call", "a": {"funcs": funcs, "kw": [[k, kwval(k)] for k in I], "S": S, "out": S[0]}})
+            elif len(S) == 1 and kind == "bad:tuple-part":
+                impl["run"] = obs_run(p, log, S[0], {k: kwval(k) for k in I})
+            if not ref["missing"] and not ref["clash"] and not ref["surplus"] and not kind.startswith("bad"):
+                impl["variants"] = obs_variants(ctx, p, log, inputs, S, I, rng, run_kw={k: kwval(k) for k in I})
             items.append((case, ref, impl, reqs))
     # auto_subpipeline without output_names: everything downstream of the provided names
     if rng.random() < 0.5:
@@ -346,13 +468,61 @@ def judge_pipe(ctx, case, ref, impl, resps):
         return
     mmap = model_map(resps[1]["r"])
     if kind.startswith("bad") or ref["clash"] or ref["surplus"]:
-        # outside the quantifier: accept/reject against the model only
         ctx.count("pipe:malformed")
         if kind == "bad:unknown-input":
             return      # KeyError/ValueError depending on the entry point: not compared
+        known = {q for f in funcs for q, _ in f["params"]} | prod
+        if all(i in known for i in I) and not ref["missing"]:
+            # S IS computable from I (I provides more than a cut: a requested output, one output of a still-needed tuple
+            # function, or names nothing needed takes).  What the property's text demands: see ASSUMPTIONS.
+            ctx.count(f"pipe:over-provided:{'clash' if ref['clash'] else 'surplus'}")
+            if "err" in impl["sub"]:
+                ctx.violation(case, f"subpipeline refuses a computable request ({kind}): {impl['sub']['msg'][:140]}", impl=impl["sub"], model=msub)
+                return
+            if impl["sub"]["kept"] != ref["needed"]:
+                ctx.violation(case, f"subpipeline keeps {impl['sub']['kept']} instead of the needed {ref['needed']} ({kind})", impl=impl["sub"], model=msub)
+                return
+            kw = {k: kwval(k) for k in I}
+            ob = impl["map"]
+            if "err" in ob:
+                bad = sorted(set(ref["clash"]) | set(ref["surplus"]))
+                if ob["err"] != "ValueError" or not any(mentions(ob["msg"], b) for b in bad):
+                    ctx.violation(case, f"map(output_names=S): over-provided request rejected with {ob['err']} not naming any of {bad}", impl=ob, model=mmap)
+                    return
+                if ob.get("calls"):
+                    ctx.violation(case, "map(output_names=S): user functions ran before the rejection of an over-provided request", impl=ob, model=mmap)
+                    return
+            else:
+                lg = []
+                for o in S:
+                    want = kw[o] if o in kw else ref_value(funcs, kw, o, lg)
+                    if ob["outputs"].get(o) != want:
+                        ctx.violation(case, f"map(output_names=S): value of `{o}` is not the full pipeline's value with the provided names substituted ({kind})",
+                                      impl={"value": ob["outputs"].get(o)}, model={"value": want})
+                        return
+                if [n for n in ob["called"] if n not in ref["needed"]]:
+                    ctx.violation(case, f"map(output_names=S) invoked {ob['called']}, not only needed functions {ref['needed']}", impl=ob, model=mmap)
+                    return
+            if "run" in impl and kind == "bad:tuple-part" and S[0] not in I:
+                ob = impl["run"]
+                lg = []
+                want = ref_value(funcs, kw, S[0], lg)
+                ctx.count("pipe:over-provided:run")
+                if "err" in ob:
+                    ctx.violation(case, f"run(o, kwargs=I) refuses a computable request ({kind}): {ob['msg'][:140]}", impl=ob, model={"value": want})
+                    return
+                if ob["value"] != want:
+                    ctx.violation(case, f"run(o, kwargs=I): value is not the composition with the provided names substituted ({kind})", impl=ob, model={"value": want})
+                    return
+                if ob["calls"] != sorted(set(lg)):
+                    ctx.violation(case, f"run(o, kwargs=I) invoked {ob['calls']} instead of exactly the needed {sorted(set(lg))} ({kind})", impl=ob, model={"value": want})
+                    return
         for key, m in (("sub", msub), ("map", mmap)):
             if ("err" in impl[key]) != ("err" in m):
                 ctx.violation(case, f"{key}: malformed request {'rejected' if 'err' in impl[key] else 'accepted'} by the implementation only ({kind})",
+                              found_input=False, item="correspondence:malformed", impl=impl[key], model=m)
+            elif key == "sub" and "err" not in m and m != impl[key]:
+                ctx.violation(case, f"sub: kept functions differ from the model on an over-provided request ({kind})",
                               found_input=False, item="correspondence:malformed", impl=impl[key], model=m)
         return
     computable = not ref["missing"]
@@ -403,6 +573,14 @@ def judge_pipe(ctx, case, ref, impl, resps):
         ctx.violation(case, f"map(output_names=S) invoked {[c[0] for c in impl['map']['calls']]} instead of exactly the needed {ref['needed']}",
                       impl=impl["map"], model=mmap)
         return
+    lg = []
+    if not judge_variants(ctx, case, impl, {o: ref_value(funcs, kw, o, lg) for o in S}, ref["needed"], lambda calls: len(calls) == len(ref["needed"])):
+        return
+    sm = (impl.get("variants") or {}).get("subobj", {}).get("map")
+    if sm is not None and (sm.get("outputs") != impl["map"]["outputs"] or sm.get("calls") != impl["map"]["calls"]):
+        ctx.violation(case, "subpipeline(I, S).map(inputs) and map(inputs, output_names=S) differ in their outputs or calls", found_input=False,
+                      item="correspondence:subobj", impl=sm, model=impl["map"])
+        return
     if msub != impl["sub"] or "err" in mmap or mmap["kept"] != ref["needed"] or mmap["outputs"] != impl["map"]["outputs"] or mmap["calls"] != impl["map"]["calls"]:
         ctx.violation(case, "model differs from the implementation on a computable request", found_input=False,
                       item="correspondence:computable", impl=impl, model={"sub": msub, "map": mmap})
@@ -423,6 +601,10 @@ def judge_pipe(ctx, case, ref, impl, resps):
                 or "err" in r["sub"] or terms.canon(r["sub"]["value"]) != ob["value"] or sorted(r["sub"]["calls"]) != ob["calls"] \
                 or terms.canon(r["spec"]) != ob["value"]:
             ctx.violation(case, "model of run / call of the partial pipeline differs", found_input=False, item="correspondence:run", impl=ob, model=r)
+        so = (impl.get("variants") or {}).get("subobj", {}).get("run")
+        if so is not None and "err" not in r["sub"] and (so.get("value") != terms.canon(r["sub"]["value"]) or so.get("calls") != sorted(r["sub"]["calls"])):
+            ctx.violation(case, "model of calling the partial pipeline (callSub) differs from subpipeline(I, S).run(o, kwargs=I)", found_input=False,
+                          item="correspondence:run", impl=so, model=r["sub"])
 
 
 # ------------------------------------------------------------------------------------------ stream B: map pipelines
@@ -496,6 +678,10 @@ def map_requests(ctx, desc, rng, items):
                 continue
             case = {"stream": "map", "desc": desc, "S": S, "I": I, "kind": kind, "auto": auto}
             impl = {"map": one[0], "full": {o: full_enc[o] for o in S}, "full_calls": [c for c in full_calls if c[0] in ref["needed"]]}
+            if not ref["missing"] and not ref["clash"] and not ref["surplus"] and not kind.startswith("bad") and "err" not in one[0]:
+                io = map_io(desc, I, full_out, full_enc, full_inputs)
+                isub = {o: sh for o, sh in (internal or {}).items() if o not in I} or None
+                impl["variants"] = obs_variants(ctx, p, log, io[0], S, I, rng, internal=isub)
             items.append((case, ref, impl, [one[1]]))
 
 
@@ -511,6 +697,24 @@ def judge_map(ctx, case, ref, impl, resps):
     ob = impl["map"]
     if kind.startswith("bad") or ref["clash"] or ref["surplus"]:
         ctx.count("map:malformed")
+        known = {q for f in funcs for q, _ in f["params"]} | prod
+        if all(i in known for i in I) and not ref["missing"]:
+            ctx.count(f"map:over-provided:{'clash' if ref['clash'] else 'surplus'}")
+            bad = sorted(set(ref["clash"]) | set(ref["surplus"]))
+            if "err" in ob:
+                if not ("err" in mmap and mmap.get("at") == "map" and not any(mentions(ob["msg"], b) for b in bad)):
+                    if ob["err"] != "ValueError" or not any(mentions(ob["msg"], b) for b in bad):
+                        ctx.violation(case, f"map(output_names=S): over-provided request rejected with {ob['err']} not naming any of {bad}", impl=ob, model=mmap)
+                        return
+                if ob.get("calls"):
+                    ctx.violation(case, "map(output_names=S): user functions ran before the rejection of an over-provided request", impl=ob, model=mmap)
+                    return
+            else:
+                for o in S:
+                    if o not in I and ob["outputs"].get(o) != impl["full"][o]:
+                        ctx.violation(case, f"map(output_names=S): `{o}` differs from what the full pipeline computes ({kind})",
+                                      impl={"value": ob["outputs"].get(o)}, model={"value": impl["full"][o]})
+                        return
         if ("err" in ob) != ("err" in mmap):
             ctx.violation(case, f"malformed request {'rejected' if 'err' in ob else 'accepted'} by the implementation only ({kind})",
                           found_input=False, item="correspondence:malformed", impl=ob, model=mmap)
@@ -545,6 +749,8 @@ def judge_map(ctx, case, ref, impl, resps):
         ctx.violation(case, f"map(output_names=S) invoked {ob['called']} ({len(ob['calls'])} calls) instead of exactly the needed {ref['needed']} "
                             f"({len(impl['full_calls'])} calls)", impl=ob, model=mmap)
         return
+    if not judge_variants(ctx, case, impl, {o: impl["full"][o] for o in S}, ob["called"], lambda calls: calls == impl["full_calls"]):
+        return
     if "err" in mmap or mmap["kept"] != ref["needed"] or mmap["outputs"] != ob["outputs"] or mmap["calls"] != ob["calls"]:
         ctx.violation(case, "model differs from the implementation on a computable map request", found_input=False,
                       item="correspondence:map", impl=ob, model=mmap)
@@ -568,13 +774,23 @@ CORPUS = [
 
 
 def run(ctx):
+    import shutil
+    import tempfile
+    ctx._c11_tmp = tempfile.mkdtemp(prefix="verif-c11-")
+    try:
+        _run(ctx)
+    finally:
+        shutil.rmtree(ctx._c11_tmp, ignore_errors=True)
+
+
+def _run(ctx):
     rng = ctx.rng
     items = []
     for d in CORPUS:
         pipe_requests(ctx, copy.deepcopy(d), rng, items)
-    for _ in range(ctx.n(140, 2500)):
+    for _ in range(ctx.n(115, 1500)):
         pipe_requests(ctx, gen_pipe(rng), rng, items)
-    for _ in range(ctx.n(110, 2000)):
+    for _ in range(ctx.n(90, 1200)):
         map_requests(ctx, mapgen.gen_case(rng, p_default=0.3), rng, items)
     flat = [r for it in items for r in it[3]]
     outs = ctx.lean(flat)
